@@ -5,9 +5,9 @@ import AslModel.Spec.IntLiteral
 /-! Driver modes for C08.
 
 mode `c08`   : `<quirks> <formula>` – formula in prefix notation, tokens
-               `i:<u64>` `f:<n>` (= n/64) `s:<hex>` `u:<op>` `b:<op>` `c1:<fn>` `c2:<fn>` `c3:<fn>`;
+               `i:<u64>` `f:<n>` (= n/64) `s:<hex>` `e:<items>` (string constant with escape sequences, see `parseSc`) `u:<op>` `b:<op>` `c1:<fn>` `c2:<fn>` `c3:<fn>`;
                quirks = 5 characters `0/1` (potBase firstbitSkip mirrorInt shrArith singleBitArith), or 7
-               (… fnStrConv fnErrRaw; with 5 these two are 0 1 = the code as found);
+               (… fnStrConv fnErrRaw; with 5 these two are 0 1 = the code as found), or 9 (… charSigned strCmpSigned; 1 = as found);
                an optional word `sq` before the formula: text = `renderSq f` (character constants '…').
    answer    : `text=<hex> lex=<ok|ne> model=<r> toks=<r> spec=<r>`
                model = `evalStr q (render f)` (tokeniser + token machine on the rendered text),
@@ -35,12 +35,66 @@ def strOfHex (h : String) : Option (List Char) :=
 
 def hexOfStr (s : List Char) : String := hex (s.map fun c => UInt8.ofNat c.toNat)
 
+/-! string constants written with escape sequences: `e:<D|S>/<item>/<item>/…` (D = double, S = single quotes), items
+    `p<hex code>` plain character, `c<hex code of the letter as written>` abbreviation (`c6e` = `\n`, `c4e` = `\N`, `c5c` = `\\`),
+    `d<value>` decimal, `x<1|2><flags 0..3: bit 0 = upper case X, bit 1 = upper case digits><value>` hexadecimal (all values decimal),
+    `o<width 0..3>.<value>` octal, `b<op|lit>.<a>.<b>` `\{a op b}` / `\{a}` (values decimal) -/
+def ctlOfLetter (c : Char) : Option (Ctl × Bool) :=
+  let l := lowLetter c
+  let up := c != l
+  (([.bs, .bel, .esc, .tab, .lf, .cr, .bslash, .apos, .quot, .aposH, .quotI] : List Ctl).find? fun k => k.letter == l).map
+    fun k => (k, up)
+
+def braceOpOfName : String → Option (Option BraceOp)
+  | "lit" => some none | "add" => some (some .add) | "sub" => some (some .sub) | "mul" => some (some .mul)
+  | "and" => some (some .and) | "or" => some (some .or) | "xor" => some (some .xor) | _ => none
+
+def parseItem (t : String) : Option Item :=
+  let body := (t.drop 1).toString
+  match t.toList.head? with
+  | some 'p' => (strOfHex body).bind fun cs => match cs with | [c] => some (.plain c) | _ => none
+  | some 'c' => (strOfHex body).bind fun cs => match cs with
+    | [c] => (ctlOfLetter c).map fun (k, up) => .ctl k up
+    | _ => none
+  | some 'd' => body.toNat?.map .dec
+  | some 'x' =>
+    match body.toList with
+    | w :: f :: v =>
+      match (String.ofList v).toNat?, (String.ofList [f]).toNat? with
+      | some n, some fl => some (.hex n (w == '2') (fl % 2 == 1) (fl / 2 % 2 == 1))
+      | _, _ => none
+    | _ => none
+  | some 'o' =>
+    match body.splitOn "." with
+    | [w, v] => match w.toNat?, v.toNat? with | some wn, some vn => some (.oct vn wn) | _, _ => none
+    | _ => none
+  | some 'b' =>
+    match body.splitOn "." with
+    | [o, a, b] => match braceOpOfName o, a.toNat?, b.toNat? with
+      | some op, some x, some y => some (.brace op (BitVec.ofNat 64 x) (BitVec.ofNat 64 y))
+      | _, _, _ => none
+    | _ => none
+  | _ => none
+
+def parseSc (t : String) : Option Formula :=
+  match t.splitOn "/" with
+  | q :: items =>
+    if q != "D" && q != "S" then none
+    else
+      let its := (items.filter (· ≠ "")).map parseItem
+      if its.all Option.isSome then
+        let l := its.filterMap id
+        if wfItems (quoteOf (q == "D")) l then some (.sc (q == "D") l) else none
+      else none
+  | [] => none
+
 partial def parseF : List String → Option (Formula × List String)
   | [] => none
   | t :: rest =>
     if t.startsWith "i:" then (t.drop 2).toString.toNat?.map fun n => (.lit (.int (BitVec.ofNat 64 n)), rest)
     else if t.startsWith "f:" then (t.drop 2).toString.toNat?.map fun n => (.lit (.flt (Float.ofNat n / 64.0)), rest)
     else if t.startsWith "s:" then (strOfHex (t.drop 2).toString).map fun s => (.lit (.str s), rest)
+    else if t.startsWith "e:" then (parseSc (t.drop 2).toString).map fun f => (f, rest)
     else if t.startsWith "u:" then do
       let u ← unOfName (t.drop 2).toString
       let (e, r) ← parseF rest
@@ -83,8 +137,10 @@ def showRes : Except Err Val → String
 
 def quirksOf (s : String) : Option Quirks :=
   match s.toList with
-  | [a, b, c, d, e] => some ⟨a == '1', b == '1', c == '1', d == '1', e == '1', false, true⟩
-  | [a, b, c, d, e, f, g] => some ⟨a == '1', b == '1', c == '1', d == '1', e == '1', f == '1', g == '1'⟩
+  | [a, b, c, d, e] => some ⟨a == '1', b == '1', c == '1', d == '1', e == '1', false, true, true, true⟩
+  | [a, b, c, d, e, f, g] => some ⟨a == '1', b == '1', c == '1', d == '1', e == '1', f == '1', g == '1', true, true⟩
+  | [a, b, c, d, e, f, g, h, i] =>
+    some ⟨a == '1', b == '1', c == '1', d == '1', e == '1', f == '1', g == '1', h == '1', i == '1'⟩
   | _ => none
 
 def valBEq : Val → Val → Bool
@@ -115,7 +171,7 @@ def handle (line : String) : String :=
     | some q, some (f, []) =>
       let text := if sq then renderSq f else render f
       let tk := toks f
-      let lexOk := toksBEq (lex text) tk
+      let lexOk := toksBEq (lex q text) tk
       let model := evalStr q text
       let tm := evalToks (modelM q) (2 * Formula.size f) tk
       let sp := eval f
@@ -130,6 +186,12 @@ def handleStr (line : String) : String :=
     | some q, some text => s!"model={showRes (evalStr q text)}"
     | _, _ => "bad-request"
   | _ => "bad-request"
+
+/-- mode `c08ops`: the operators of the SPEC with the rank column of the manual's table (`b:<name>:<rank>` dyadic,
+`u:<name>:<rank>` sign / complement) - the generator of rank-discriminating formulas takes the table from here -/
+def handleOps (_ : String) : String :=
+  " ".intercalate ((binNames.map fun (n, o) => s!"b:{n}:{o.rank}") ++
+    [("neg", UnOp.neg), ("not", UnOp.not), ("lnot", UnOp.lnot)].map fun (n, u) => s!"u:{n}:{u.rank}")
 
 /-! mode `c08lit`: `<moto|intel|c|ibm> <relaxed 0/1> <ibmNoTerm 0/1> <radix> <-idents|-> <+idents|-> <hex text>`
     (idents comma separated, as written for INTSYNTAX without the sign)
